@@ -223,6 +223,7 @@ type committedReader struct {
 	pos   int64
 	hwPos int64
 	hw    int64
+	start int64 // Offset to start at once it is committed when seg is nil.
 }
 
 func (r *committedReader) Read(ctx context.Context, p []byte) (n int, err error) {
@@ -235,9 +236,14 @@ func (r *committedReader) Read(ctx context.Context, p []byte) (n int, err error)
 	// for data.
 	if r.seg == nil {
 		offset := r.hw + 1 // We want to read the next committed message.
+		if r.start > offset {
+			// The requested offset is in the log but not committed yet, so the
+			// messages between the HW and it must not be read.
+			offset = r.start
+		}
 		hw := r.cl.HighWatermark()
-		for hw == r.hw {
-			// The HW has not changed, so wait for it to update.
+		for hw < offset {
+			// The HW has not reached the offset, so wait for it to update.
 			err = r.waitForHW(ctx, hw)
 			if err != nil {
 				return
@@ -359,6 +365,11 @@ func (l *commitLog) newReaderCommitted(offset int64) (contextReader, error) {
 	// If offset exceeds HW, wait for the next message. This also covers the
 	// case when the log is empty.
 	if offset > hw || l.OldestOffset() == -1 {
+		// An offset past the end of the log is capped to the next committed
+		// message.
+		if offset > l.NewestOffset()+1 {
+			offset = hw + 1
+		}
 		return &committedReader{
 			cl:    l,
 			seg:   nil,
@@ -366,6 +377,7 @@ func (l *commitLog) newReaderCommitted(offset int64) (contextReader, error) {
 			hwSeg: hwSeg,
 			hwPos: hwPos,
 			hw:    hw,
+			start: offset,
 		}, nil
 	}
 
